@@ -7,6 +7,7 @@ From SK Require Import model.C15_View proof.C15_View.
 From SK Require Import model.C16_Model model.C15_ViewObs proof.C15_ViewGraph.
 From SK Require Import proof.C16_Defs model.C15_Repr proof.C15_Repr.
 From SK Require Import model.C15_Side proof.C15_Side model.C15_Bulk proof.C15_Bulk.
+From SK Require Import proof.C15_Species.
 Local Open Scope string_scope.
 
 (** ** 1. The store invariant *)
@@ -816,3 +817,30 @@ Theorem C15_bulk_frame : forall (w : world2) (o : op6) (j : nat),
   nets (step6 w o).1.1 !! j = nets w !! j /\ pool (step6 w o).1.1 = pool w.
 Proof. exact step6_frame. Qed.
 Print Assumptions C15_bulk_frame.
+
+(** ** 12. (round 5, audit A3-1) The species clause, operation by operation.
+    Conjunct 3 of [C15_inv_meaning] reads "every species occurs in a stored reaction or was, at some point, explicitly kept"
+    (the ghost field [kept] only grows: it means EVER kept).  The other direction — a species the caller chose to keep is still
+    there — is proved here for the primitive operations: the species set shrinks only where the text allows.
+      remove_species(x, prune_orphans=False)  drops NOTHING (x stays);  with prune_orphans=True it may drop x, and nothing else;
+      remove_rxn(e)                           may drop species of the removed reaction only;
+      add_rxn / merge / assign_mol / set_mol_map drop nothing.
+    This bounds what a step MAY drop.  That an orphaned species of a removed reaction IS dropped (the must-drop direction, which
+    together with this theorem and [Inv] would make the species set exact also for labels that were ever kept) is not stated here:
+    see C15_remove_rxn_prunes if present below, else it is tested only (oracle: species = occurring + kept-and-not-reoccurred).
+    Reading adopted by code, model and oracle: a kept species that ENTERS A REACTION AGAIN is an ordinary species — it goes when its
+    last reaction goes ([ex_species_nonvacuous]). *)
+Theorem C15_species_shrink_only_where_allowed :
+  (forall s l r rule eid, species s ⊆ species (add s l r rule eid).1.1) /\
+  (forall s e s' rx, remove_rxn s e = (s', None) -> edges s !! e = Some rx ->
+     species s ∖ rxn_species rx ⊆ species s' /\ species s' ⊆ species s) /\
+  (forall s x prune s', remove_species s x prune = (s', None) ->
+     species s ∖ {[ x ]} ⊆ species s' /\ species s' ⊆ species s /\ (prune = false -> species s' = species s)) /\
+  (forall s o prefix, species s ⊆ species (merge s o prefix).1) /\
+  (forall s x m, species (assign_mol s x m).1 = species s) /\
+  (forall s mp st cl, species (set_mol_map s mp st cl).1 = species s).
+Proof.
+  exact (conj add_species_mono (conj remove_rxn_species (conj remove_species_species
+          (conj merge_species_mono (conj assign_mol_species set_mol_map_species))))).
+Qed.
+Print Assumptions C15_species_shrink_only_where_allowed.
